@@ -377,7 +377,12 @@ def judge_record(
             got = rec.get("error_message")
             if full is not None and got is not None:
                 chk.hit("error_message_compared")
-                if got != full:
+                if full == "":
+                    # empty server-side text: the statement asks for a NON-empty error_message all the same,
+                    # so the "equals the full text" clause cannot apply; any non-empty value is accepted
+                    # (an empty or missing one is reported by the schema monitor above)
+                    chk.skip("empty_server_text:any_nonempty_error_message_accepted")
+                elif got != full:
                     if got == full[:500] and len(full) > 500:
                         how = "truncated_to_500_chars"
                     elif full.startswith(got):
